@@ -193,7 +193,7 @@ def make_case(prop, tier, seed, i):
         "backends": backends,
         "p_reuse": rng.choice([0.0, 0.3, 0.7, 1.0]),
         "p_fault": rng.choice([0.0, 0.0, 0.15, 0.35]),
-        "fault_kinds": rng.sample(["io", "abort", "tmpl_missing", "apply_only"], rng.choice([1, 2, 3])),
+        "fault_kinds": rng.sample(["io", "abort", "tmpl_missing", "apply_only", "bad_outdir"], rng.choice([1, 2, 3])),
         "p_ld": rng.choice([0.0, 0.0, 0.2, 0.6]),
         "md_rate": rng.choice([0.2, 0.5, 0.7]),
         "p_mismatch": rng.choice([0.0, 0.05]),
@@ -278,6 +278,10 @@ def make_case(prop, tier, seed, i):
                 op["fault"] = {"kind": "tmpl_missing"}
             elif kind == "apply_only":
                 op["fault"] = {"kind": "apply_only"}
+            elif kind == "bad_outdir":
+                # a persistently unusable output location (not a one-shot error): the path is a regular file, one of the
+                # package's file names is taken by a directory, or the directory does not exist
+                op["fault"] = {"kind": "bad_outdir", "how": rng.choice(["is_file", "name_taken_by_dir", "missing"])}
             else:
                 op["fault"] = {"kind": "abort", "frac": rng.random(), "wide": rng.random() < 0.4,
                                "exc": weighted(rng, [("RecursionError", 6), ("MemoryError", 3), ("KeyboardInterrupt", 1)])}
@@ -403,6 +407,15 @@ def _history_child(case, refs):
                     lines = ref["lines_wide"] if f.get("wide") else ref["lines"]
                     ab = xlate.AbortPlan(n=int(f["frac"] * max(1, lines)), exc=f["exc"], wide=bool(f.get("wide")))
                 tm = xlate.TemplateDirMissing() if f and f["kind"] == "tmpl_missing" else None
+                if f and f["kind"] == "bad_outdir":
+                    if f["how"] == "is_file":
+                        shutil.rmtree(d)
+                        with open(d, "w") as fh:
+                            fh.write("not a directory\n")
+                    elif f["how"] == "name_taken_by_dir":
+                        os.makedirs(os.path.join(d, "runner.sh"))
+                    else:
+                        shutil.rmtree(d)
                 n_streams = len(streams)
                 got = xlate.translate(exe, q, d, ld=op["ld"], io_plan=io_plan, abort_plan=ab, extra_seam=tm,
                                       stream_cache=streams if op.get("share") else None,
@@ -416,6 +429,9 @@ def _history_child(case, refs):
                 if got["outcome"] == "abandoned":
                     fired = "apply_only"
                     bump("fault:abandoned_after_first_phase")
+                if f and f["kind"] == "bad_outdir":
+                    fired = "bad_outdir:" + f["how"]
+                    bump("fault:output_location_unusable_" + f["how"])
                 if tm is not None and tm.fired:
                     fired = "tmpl_missing"
                     bump("fault:template_dir_not_found")
@@ -460,7 +476,10 @@ def _history_child(case, refs):
                 prev_failed = prev_failed or (got["outcome"] == "raise" and fired is None)
                 prev_fault = prev_fault or fired is not None
                 bump("translate_ok" if got["outcome"] == "ok" else "translate_raise")
-                shutil.rmtree(d, ignore_errors=True)
+                if os.path.isdir(d):
+                    shutil.rmtree(d, ignore_errors=True)
+                elif os.path.exists(d):
+                    os.remove(d)
             states.append(xlate.abstract_state(slots))
     finally:
         shutil.rmtree(root, ignore_errors=True)
